@@ -227,7 +227,20 @@ pub fn run_scenario_family(sc: &Scenario, panic_at: u32, family: u8) -> RunOut {
                         let len = v.len();
                         let lo = (sc.a as usize * (len + 1)) >> 8;
                         let hi = lo + (((sc.b as usize) * (len - lo + 1)) >> 8);
-                        let sp = v.splice(lo..hi, TickIter { vals: extra.clone().into_iter(), exact: sc.c & 0x80 == 0 });
+                        let mut sp = v.splice(lo..hi, TickIter { vals: extra.clone().into_iter(), exact: sc.c & 0x80 == 0 });
+                        // removed elements taken from either end before the Splice is let go
+                        for _ in 0..((sc.c & 3) % 3) {
+                            if let Some(x) = sp.next() {
+                                let _u = ledger::enter_user();
+                                held_by_caller.push(x);
+                            }
+                        }
+                        for _ in 0..(((sc.c >> 2) & 3) % 3) {
+                            if let Some(x) = sp.next_back() {
+                                let _u = ledger::enter_user();
+                                held_by_caller.push(x);
+                            }
+                        }
                         drop(sp);
                     }
                     10 => {
@@ -268,6 +281,12 @@ pub fn run_scenario_family(sc: &Scenario, panic_at: u32, family: u8) -> RunOut {
                                 held_by_caller.push(x);
                             }
                         }
+                        for _ in 0..((sc.a >> 2) % 3) {
+                            if let Some(x) = it.next_back() {
+                                let _u = ledger::enter_user();
+                                held_by_caller.push(x);
+                            }
+                        }
                         drop(it);
                     }
                     15 => {
@@ -277,6 +296,13 @@ pub fn run_scenario_family(sc: &Scenario, panic_at: u32, family: u8) -> RunOut {
                         let mut d = v.drain(lo..hi);
                         for _ in 0..(sc.c % 3) {
                             if let Some(x) = d.next() {
+                                let _u = ledger::enter_user();
+                                held_by_caller.push(x);
+                            }
+                        }
+                        // (double-ended: what is left in the Drain need not sit next to the tail)
+                        for _ in 0..((sc.c >> 2) % 3) {
+                            if let Some(x) = d.next_back() {
                                 let _u = ledger::enter_user();
                                 held_by_caller.push(x);
                             }
